@@ -145,7 +145,8 @@ func (rr *DefaultRelationsResolver) TargetStates(
 	resolvedS = slicesFilter(rr.parseAdd(resolvedS), func(name string,
 		_ int,
 	) bool {
-		return !slices.Contains(toRemove, name)
+		_, blocked := alreadyBlocked[name]
+		return !blocked && !slices.Contains(toRemove, name)
 	})
 	resolvedS = slicesUniq(resolvedS)
 
